@@ -14,6 +14,7 @@ import (
 	"net/http"
 	"runtime/debug"
 	"sort"
+	"strconv"
 	"strings"
 	"unicode/utf8"
 
@@ -186,6 +187,12 @@ var c13DetailAlphabet = []c13DetailDef{
 	{"bytes62", wrapperspb.Bytes([]byte{0xfb, 0xff, 0xfe}), wrapperspb.Bytes([]byte{1})}, // base64 uses '+' and '/'
 }
 
+// c13PatternText: n characters running through the letters, digits and a few marks (deterministic, nothing JSON escapes).
+func c13PatternText(n int) string {
+	const unit = "abcdefghijklmnopqrstuvwxyz0123456789-_.~ ABCDEFGHIJKLMNOPQRSTUVWXYZ:;/"
+	return strings.Repeat(unit, n/len(unit)+1)[:n]
+}
+
 func c13MustAny(m proto.Message) *anypb.Any {
 	a, err := anypb.New(m)
 	if err != nil {
@@ -205,6 +212,16 @@ func c13MustStruct() *structpb.Struct {
 func c13Detail(name string) proto.Message { return c13DetailDefOf(name).Msg }
 
 func c13DetailDefOf(name string) c13DetailDef {
+	// "big:<n>": a google.protobuf.StringValue of n characters (size-threshold stage). A string, not bytes:
+	// the examiner compares value and debug with go-cmp, which walks a bytes field element by element
+	// (about 0.6 s per 256 KiB) but treats a string as one value.
+	if n, ok := strings.CutPrefix(name, "big:"); ok {
+		size, err := strconv.Atoi(n)
+		if err != nil || size < 0 {
+			panic("bad detail name " + name)
+		}
+		return c13DetailDef{Name: name, Msg: wrapperspb.String(c13PatternText(size))}
+	}
 	for _, d := range c13DetailAlphabet {
 		if d.Name == name {
 			return d
@@ -256,6 +273,14 @@ var c13MetaAlphabet = []c13MetaDef{
 func c13Meta(name string) []*conformancev1.Header {
 	if name == "" {
 		return nil
+	}
+	// "pad:<n>": one custom field "x-pad" whose value is n visible ASCII characters (size-threshold stage)
+	if n, ok := strings.CutPrefix(name, "pad:"); ok {
+		size, err := strconv.Atoi(n)
+		if err != nil || size < 0 {
+			panic("bad meta name " + name)
+		}
+		return []*conformancev1.Header{{Name: "x-pad", Value: []string{strings.Repeat("p", size)}}}
 	}
 	for _, m := range c13MetaAlphabet {
 		if m.Name == name {
